@@ -148,7 +148,15 @@ Fixpoint no_reissue (c : ocase) (saved : list nat) (before steps : list ostep) :
       ok && no_reissue c saved' (before ++ [o]) r
   end.
 Definition some_forced (c : ocase) : bool := existsb force_eff (oc_cfgs c).
-Definition s2_ok (c : ocase) : bool := some_forced c || no_reissue c [] [] (oc_steps c).
+(** storage names that hold a complete, matching bundle with a certificate that is not due from the start *)
+Definition init_fresh (c : ocase) : list nat :=
+  flat_map (fun g : tcfg =>
+              let n := c_vk g in
+              match sto_of_list (oc_init c) (SK n KKey), sto_of_list (oc_init c) (SK n KCrt), sto_of_list (oc_init c) (SK n KMeta) with
+              | Some _, Some (VCrt ce), Some _ => if c_due ce then [] else [n]
+              | _, _, _ => []
+              end) (oc_cfgs c).
+Definition s2_ok (c : ocase) : bool := some_forced c || no_reissue c (init_fresh c) [] (oc_steps c).
 
 (** S3 (callers_agree): every ManageSync caller that succeeded holds the stored certificate *)
 Definition is_manage (g : tcfg) : bool := match c_prog g with PManage => true | _ => false end.
